@@ -7,6 +7,7 @@ import (
 	"os"
 	"path/filepath"
 	"strings"
+	"time"
 
 	"github.com/google/uuid"
 	"github.com/wrgl/wrgl/pkg/objects"
@@ -26,6 +27,7 @@ type c12Params struct {
 	Shallow     int    `json:"shallow"`
 	Via         string `json:"via"` // pkg | cli | cli-gc
 	OrphanTable bool   `json:"orphan_table"`
+	ExpiredTx   bool   `json:"expired_tx,omitempty"` // a second, long-expired transaction holds every third ref
 }
 
 func c12RefName(rng *rand.Rand, j int, txid string) string {
@@ -111,11 +113,28 @@ func c12Run(c *fw.Case, env *fw.Env) *fw.Obs {
 	if id, err := rs.NewTransaction(nil); err == nil && id != nil {
 		txid = id.String()
 	}
+	// and (gc cases) a second transaction that was opened 45 days ago and never committed: gc discards it, so after gc its
+	// refs are gone and what only they reached is garbage; plain prune does not touch transactions, so there its refs count
+	expired := ""
+	if p.ExpiredTx {
+		id := uuid.New()
+		if _, err := rs.NewTransaction(&ref.Transaction{ID: id, Status: ref.TSInProgress, Begin: time.Now().Add(-45 * 24 * time.Hour)}); err == nil {
+			expired = id.String()
+		}
+	}
+	expiredRefs := 0
 	for j := 0; j < p.Refs; j++ {
 		i := rng.Intn(p.N)
 		name := c12RefName(rng, j, txid)
+		if expired != "" && j%3 == 2 {
+			name = fmt.Sprintf("txs/%s/b%d", expired, j)
+		}
 		rs.Set(name, h.sums[i])
 		refKinds[name[:strings.IndexByte(name, '/')]] = true
+		if expired != "" && strings.HasPrefix(name, "txs/"+expired+"/") && p.Via == "cli-gc" {
+			expiredRefs++
+			continue
+		}
 		for a := range h.anc[i] {
 			R[a] = true
 		}
@@ -289,7 +308,7 @@ func c12Run(c *fw.Case, env *fw.Env) *fw.Obs {
 		o.Ev("commits_read_back", 1)
 	}
 	refsAfter, _ := ref.ListAllRefs(rs)
-	if len(refsAfter) != len(refsBefore) {
+	if len(refsAfter) != len(refsBefore)-expiredRefs {
 		o.Violate("refs-changed/"+entry+"/"+class, "refs before %v after %v", keysOfB(refsBefore), keysOfB(refsAfter))
 	}
 	// a second prune changes nothing
@@ -354,8 +373,11 @@ func init() {
 				l.Add("repo", p, 0)
 			}
 			// gc = transaction clean-up + prune: repositories with an open transaction holding refs
-			for i := 0; i < l.N(8, 300); i++ {
-				l.Add("gc", c12Params{N: 3 + rng.Intn(8), BaseRows: 4, Refs: 6 + rng.Intn(6), Via: "cli-gc"}, 0)
+			for i := 0; i < l.N(20, 400); i++ {
+				l.Add("gc", c12Params{N: 3 + rng.Intn(8), BaseRows: 4, Refs: 6 + rng.Intn(6), Via: "cli-gc", ExpiredTx: i%2 == 0}, 0)
+				if i%4 == 1 {
+					l.Add("prune", c12Params{N: 3 + rng.Intn(8), BaseRows: 4, Refs: 6 + rng.Intn(6), Via: "cli", ExpiredTx: true}, 0)
+				}
 				if i%2 == 0 {
 					l.Add("prune-large", c12Params{N: 30 + rng.Intn(30), BaseRows: []int{4, 300}[rng.Intn(2)], Refs: 2 + rng.Intn(3), Via: "cli"}, 0)
 				}
